@@ -423,7 +423,7 @@ impl GenState {
             IntoIter => {
                 let y = st.word.iter().filter(|w| **w == b'n' || **w == b'b').count().min(len);
                 self.hand += y;
-                self.len[x] = if st.c % 3 == 1 { len - y } else { 0 };
+                self.len[x] = if st.c % 4 == 1 { len - y } else { 0 };
             }
             New | DropBuf => self.len[x] = 0,
             FromArray | FromIter => self.len[x] = st.vals.len().min(n),
@@ -473,7 +473,7 @@ impl GenState {
             FaultKind::Closure => match st.op {
                 FillWith => n,
                 FillSpareWith => n - len.min(n),
-                IntoIter if st.c % 3 == 2 => len,
+                IntoIter if st.c % 4 >= 2 => len,
                 _ => 0,
             },
             FaultKind::Iter => match st.op {
@@ -505,7 +505,7 @@ fn user_kind_for(op: Op, st: &Step, rng: &mut Rng) -> FaultKind {
         FromIter => FaultKind::Iter,
         CmpBufs | EqSlice | DebugFmt | CrossCmp => FaultKind::Cmp,
         Iter | Range | IterMut | RangeMut => FaultKind::Cmp,
-        IntoIter if st.c % 3 == 2 => FaultKind::Closure,
+        IntoIter if st.c % 4 == 2 => FaultKind::Closure,
         IntoIter | Drain => {
             if rng.below(2) == 0 {
                 FaultKind::Clone
